@@ -226,6 +226,12 @@ class Program:
                     c.ext_bases.append(self.ext_origin(self.modules[c.module], b))
         for c in self.classes.values():
             c.is_pydantic = any("pydantic" in e and "BaseModel" in e for k in self.mro(c) for e in k.ext_bases)
+        for c in self.classes.values():
+            # code that runs when a (sub)class is CREATED can rewrite the class (operators, fields, registries): not modelled
+            hooks = [m for m in ("__init_subclass__", "__pydantic_init_subclass__", "__set_name__", "__class_getitem__", "__prepare__") if m in c.methods]
+            if hooks or any(k.arg == "metaclass" for k in c.node.keywords):
+                raise AnalysisError(f"class {c.name} ({c.module}) defines a class-creation hook ({', '.join(hooks) or 'metaclass'}): the classes of the "
+                                    f"program may differ from what their bodies say; outside the modelled subset")
 
     def _top(self, st, mi: ModuleInfo):
         if isinstance(st, ast.ClassDef):
